@@ -199,7 +199,7 @@ async fn run_c20_async(hist: &[TEv]) -> Outcome<TEv> {
 
 pub fn run_c20() {
     let mut rep = Report::new("C20", "model_checking");
-    let limits = Limits { max_budget: 0, max_depth: 12, max_states: 2_000_000, wall_s: if rep.thorough() { 600.0 } else { 45.0 } };
+    let limits = Limits { max_budget: 0, max_depth: 12, max_states: 2_000_000, wall_s: mc::budget(rep.thorough(), 45.0, 1.0) };
     let mut found = vec![];
     let mut samples = vec![];
     let stats = mc::explore(&limits, |h: &[TEv]| rt::run(run_c20_async(h)), |v, _| found.push(v), |h, _| samples.push(format!("{:?}", h)));
@@ -848,7 +848,7 @@ pub fn run_c17() {
         cfgs.push(VCfg { dual: true, min: 3, voters: vec![0, 0, 1, 1, 2], addrs: 3, with_fail: true });
     }
     let depth = if thorough { 8 } else { 6 };
-    let budget = if thorough { 1500.0 } else { 45.0 };
+    let budget = mc::budget(thorough, 45.0, 1.0);
     let start = clock::wall();
     let (mut states, mut trans, mut execs) = (0u64, 0u64, 0u64);
     let mut counters: BTreeMap<&'static str, u64> = BTreeMap::new();
